@@ -100,7 +100,7 @@ def _floatify(modes):
 
 def rand_dict(rng, depth, names, top=True):
     m = rng.choice(names)
-    nm = rng.choice([1, 1, 2, 3, 4, 5]) if top else rng.choice([0, 1, 1, 2, 3])
+    nm = rng.choice([0, 1, 1, 1, 2, 2, 3, 4, 5]) if top else rng.choice([0, 1, 1, 2, 3])
     modes = []
     for _ in range(nm):
         fs = []
